@@ -26,6 +26,9 @@ REPO = os.environ.get("VERIF_REPO", "/repo")
 WORK = os.environ.get("VERIF_WORK", os.path.join(VERIF, ".work"))
 NCPU = os.cpu_count() or 4
 GUARD = "ICLDISCO_PARSEC_VERIF"
+# scratch mode (bin/mutcheck): evidence and found replays go under WORK, never into /verif
+SCRATCH = os.environ.get("VERIF_SCRATCH", "") == "1"
+EVID_DIR = os.path.join(WORK, "evidence") if SCRATCH else os.path.join(VERIF, "evidence")
 
 MPI_ENV = {
     "OMPI_ALLOW_RUN_AS_ROOT": "1",
@@ -33,6 +36,7 @@ MPI_ENV = {
     "OMPI_MCA_rmaps_base_oversubscribe": "1",
     "OMPI_MCA_btl_vader_single_copy_mechanism": "none",
     "PARSEC_MCA_runtime_warn_slow_binding": "0",
+    "PARSEC_MCA_bind_threads": "0",
     "PMIX_MCA_gds": "hash",
 }
 
@@ -398,7 +402,7 @@ class Result:
 
 
 def save_replay(prop, text, ext="txt", binary=False):
-    d = os.path.join(VERIF, "corpus", prop, "found")
+    d = os.path.join(WORK, "found", prop) if SCRATCH else os.path.join(VERIF, "corpus", prop, "found")
     os.makedirs(d, exist_ok=True)
     data = text if binary else text.encode()
     h = hashlib.sha1(data).hexdigest()[:12]
@@ -446,8 +450,8 @@ def finish(result, tier, t0):
         "wall_s": round(time.time() - t0, 2),
         "violations": nviol,
     }
-    os.makedirs(os.path.join(VERIF, "evidence"), exist_ok=True)
-    evp = os.path.join(VERIF, "evidence", prop + ".json")
+    os.makedirs(EVID_DIR, exist_ok=True)
+    evp = os.path.join(EVID_DIR, prop + ".json")
     with open(evp + ".tmp", "w") as f:
         json.dump(ev, f, indent=1, sort_keys=False, default=str)
         f.write("\n")
